@@ -5,6 +5,7 @@ import XModel.OptFix
 import XModel.OptLimits
 import XModel.OptPerCall
 import XProofs.MaxStep
+import XModel.MeritNum
 /-!
 # C10 — accepted optimizer iterates respect limits, max_step and disabled knobs
 
@@ -27,6 +28,11 @@ not modelled; `resync` is an oracle flag).
 * of the per-call `disable_*` / `enable_*` arguments of `step` (modelled: `Opt.optStepWith`, section "per-call arguments"
   below): the resolution of ids / tags / names to positions (done by the harness, `re.fullmatch`), the Boolean forms
   `enable_vary=True/False`, and `_clip_to_limits` under `check_limits=False`;
+  parameters of the skeleton, so the statement cannot be expressed about the steps; what IS proved
+  (`C10_disabled_target_no_influence`, over `XModel/MeritNum.lean`) is that everything the merit function hands to the
+  solver — the returned vector, `last_point_within_tol`, the penalty — does not depend on the raw value of a disabled
+  target; that the solver drops the rows of the disabled targets from the Jacobian (`jacobian.py`) stays with the oracle;
+* the per-call `disable_*` / `enable_*` arguments of `step` (not modelled);
 * `solve()`'s restore path: it reloads a row logged BEFORE the call, which may write out-of-limit values and change a
   knob that is disabled now (`Opt.LimitsExample`); every theorem below is about one `optStep`, with `take_best` reloading
   a row logged during the call;
@@ -464,5 +470,72 @@ example : OptNum.trialPoint (MaxStep.fo (K := ℚ)) (fun _ => -100) (fun _ => 10
 /-- the pinned code's behaviour on the probed witness (max_step = (1, 5), raw step (10, 10)): knob 0 moves by 5 -/
 example : Clip.clipPinned (fun i => if i = 0 then some 1 else some 5) 2 (fun _ => 10) 0 = 5 := by
   norm_num [Clip.clipPinned, Clip.clipAtPinned, List.range_succ, List.foldl]
+
+/-! ### a disabled target has no influence on what the merit function returns (`XModel/MeritNum.lean`)
+
+The residual computation of `MeritFunctionForMatch.__call__` after the actions ran, statement by statement; the driver
+recomputes it on doubles for every recorded evaluation of the real merit function, from the attributes the `Target`
+objects have at that moment, and compares the returned vector bit for bit (suite `opt`, op `merit`, field `resid_ok`). -/
+
+/-- two evaluations of the merit function that agree on the wanted values, tolerances, weights, active flags and
+    `zero_if_met`, and on the raw value of every ACTIVE target, return the same vector, set the same
+    `last_point_within_tol` and have the same penalty — whatever the raw values of the DISABLED targets are (the number
+    type and its operations are arbitrary: NaN, infinities, anything).  The solver sees the user's function only through
+    these three. -/
+theorem C10_disabled_target_no_influence {R : Type} (o : MeritNum.NumOps R) (res₁ res₂ tar tols : List R)
+    (weights : List (Option R)) (mask : List Bool) (zeroIfMet : Bool) (hlen : res₁.length = res₂.length)
+    (h : ∀ i : Nat, mask[i]? = some true → res₁[i]? = res₂[i]?) :
+    MeritNum.residuals o res₁ tar tols weights mask zeroIfMet = MeritNum.residuals o res₂ tar tols weights mask zeroIfMet ∧
+    MeritNum.lastWithin o res₁ tar tols mask = MeritNum.lastWithin o res₂ tar tols mask ∧
+    MeritNum.penalty2 o res₁ tar tols weights mask zeroIfMet = MeritNum.penalty2 o res₂ tar tols weights mask zeroIfMet :=
+  MeritNum.disabled_target_no_influence o res₁ res₂ tar tols weights mask zeroIfMet hlen h
+
+/-- the entry of a disabled target is built from the constant zero and the weight alone (`0 * weight`, as the code
+    scales every entry): its raw value does not occur -/
+theorem C10_disabled_target_entry {R : Type} (o : MeritNum.NumOps R) (res tar tols : List R) (weights : List (Option R))
+    (mask : List Bool) (zeroIfMet : Bool) (i : Nat) (r t : R) (w : Option R)
+    (hr : res[i]? = some r) (ht : tar[i]? = some t) (hw : weights[i]? = some w) (hm : mask[i]? = some false) :
+    (MeritNum.residuals o res tar tols weights mask zeroIfMet)[i]? =
+      some (MeritNum.scaleW o w (if zeroIfMet && MeritNum.lastWithin o res tar tols mask then o.mul o.zero o.zero else o.zero)) :=
+  MeritNum.residual_of_disabled_gen o res tar tols weights mask zeroIfMet i r t w hr ht hw hm
+
+/-- the counter-model: the statement of `C10_disabled_target_no_influence` is FALSE of the variant that masks by
+    multiplication (`err_values * mask_output` instead of `err_values[~mask_output] = 0`) — over the integers with an
+    absorbing NaN, two inputs that differ only in a disabled target (a number / NaN) give different vectors and
+    penalties.  This is the behaviour the theorem excludes. -/
+theorem C10_disabled_target_influences_multiplication_variant :
+    ¬ (∀ (o : MeritNum.NumOps (Option Int)) (one : Option Int) (res₁ res₂ tar tols : List (Option Int))
+        (weights : List (Option (Option Int))) (mask : List Bool) (zim : Bool), res₁.length = res₂.length →
+        (∀ i : Nat, mask[i]? = some true → res₁[i]? = res₂[i]?) →
+        MeritNum.residualsByMultiplication o one res₁ tar tols weights mask zim =
+          MeritNum.residualsByMultiplication o one res₂ tar tols weights mask zim ∧
+        MeritNum.penalty2ByMultiplication o one res₁ tar tols weights mask zim =
+          MeritNum.penalty2ByMultiplication o one res₂ tar tols weights mask zim) :=
+  MeritNum.disabled_target_influences_multiplication_variant
+
+/-- non-vacuity: the hypotheses hold of the two inputs of the counter-model (second target disabled, a number / NaN
+    there), and the code's form returns the same vector `[2, 0]` and penalty `4` for both … -/
+example : MeritNum.residuals MeritNum.nanInt MeritNum.Counter.resNum MeritNum.Counter.tar MeritNum.Counter.tols
+      MeritNum.Counter.weights MeritNum.Counter.mask false = [some 2, some 0] ∧
+    MeritNum.residuals MeritNum.nanInt MeritNum.Counter.resNan MeritNum.Counter.tar MeritNum.Counter.tols
+      MeritNum.Counter.weights MeritNum.Counter.mask false = [some 2, some 0] ∧
+    MeritNum.penalty2 MeritNum.nanInt MeritNum.Counter.resNan MeritNum.Counter.tar MeritNum.Counter.tols
+      MeritNum.Counter.weights MeritNum.Counter.mask false = some 4 :=
+  MeritNum.Counter.assignment_blind
+example := C10_disabled_target_no_influence MeritNum.nanInt MeritNum.Counter.resNum MeritNum.Counter.resNan
+  MeritNum.Counter.tar MeritNum.Counter.tols MeritNum.Counter.weights MeritNum.Counter.mask false rfl
+  MeritNum.Counter.agree_on_active
+
+/-- … while the multiplication variant returns `[2, NaN]` and the penalty NaN for the second -/
+example : MeritNum.residualsByMultiplication MeritNum.nanInt (some 1) MeritNum.Counter.resNan MeritNum.Counter.tar
+      MeritNum.Counter.tols MeritNum.Counter.weights MeritNum.Counter.mask false = [some 2, none] ∧
+    MeritNum.penalty2ByMultiplication MeritNum.nanInt (some 1) MeritNum.Counter.resNan MeritNum.Counter.tar
+      MeritNum.Counter.tols MeritNum.Counter.weights MeritNum.Counter.mask false = none :=
+  ⟨MeritNum.Counter.multiplication_poisoned.2.1, MeritNum.Counter.multiplication_poisoned.2.2.2⟩
+
+/-- an ACTIVE target does have influence (the theorem is not vacuous the other way): changing its raw value changes
+    the returned vector -/
+example : MeritNum.residuals MeritNum.intOps [3, 5] [1, 0] [1, 1] [none, none] [true, false] false ≠
+    MeritNum.residuals MeritNum.intOps [4, 5] [1, 0] [1, 1] [none, none] [true, false] false := by decide
 
 end Properties.C10
